@@ -316,7 +316,8 @@ def wed(params):
     pt_b = vsum(base_bottom, vec_b)
     vec_ab = vdiff(vec_a, vec_b)
     vec_c = vect(vec_ab, height)
-    sign_c = 1 if mixed(vec_a, vec_b, vec_c) > 0. else -1
+    # the slant facet passes through pt_a; the base vertex lies inside
+    sign_c = 1 if scal(vec_a, vec_c) > 0. else -1
     return [
         (MS.P, planeParamsFromNormalAndPoint(vec_c, pt_a), sign_c),
         (MS.P, planeParamsFromNormalAndPoint(vec_a, pt_b), -1),
